@@ -167,8 +167,9 @@ def pipeline_strategy(*, max_ops=3, max_vars=3, max_K=2, semirings=("sum-product
         # per-node model: scope, units, pure (only layers that have conjugate/multiply/differentiate rules)
         # mixed: outputs with different scopes (integrating a variable an output does not depend
         # on is not what the operator is specified for), so no integrate after that
+        # L: estimated number of layers (products of circuits multiply them; bounded to keep cases small)
         info = [{"scope": full, "K": _root_units(b), "pure": True, "O": len(b["outputs"]), "diff": False,
-                 "mixed": False} for b in bases]
+                 "mixed": False, "L": len(b["layers"])} for b in bases]
         nops = draw(st.integers(1, max_ops))
         for _ in range(nops):
             ops_ok = []
@@ -193,13 +194,14 @@ def pipeline_strategy(*, max_ops=3, max_vars=3, max_K=2, semirings=("sum-product
             elif op == "multiply":
                 a = draw(st.sampled_from(pure))
                 cands = [i for i in pure if info[i]["scope"] == info[a]["scope"] and info[i]["K"] * info[a]["K"] <= 16
-                         and info[i]["O"] * info[a]["O"] <= 6]
+                         and info[i]["O"] * info[a]["O"] <= 6 and info[i]["L"] * info[a]["L"] <= 400]
                 if not cands:
                     continue
                 b = draw(st.sampled_from(cands))
                 pipe.append({"op": op, "a": a, "b": b})
                 info.append({"scope": info[a]["scope"], "K": info[a]["K"] * info[b]["K"], "pure": True,
-                             "O": info[a]["O"] * info[b]["O"], "diff": False, "mixed": False})
+                             "O": info[a]["O"] * info[b]["O"], "diff": False, "mixed": False,
+                             "L": info[a]["L"] * info[b]["L"]})
             elif op == "integrate":
                 a = draw(st.sampled_from(integrable))
                 Z = draw_subset(draw, info[a]["scope"])
@@ -208,7 +210,8 @@ def pipeline_strategy(*, max_ops=3, max_vars=3, max_K=2, semirings=("sum-product
             elif op == "differentiate":
                 a = draw(st.sampled_from([i for i in pure if info[i]["scope"] and info[i]["O"] <= 2]))
                 pipe.append({"op": op, "a": a, "order": draw(st.sampled_from([1, 1, 2]))})
-                info.append(dict(info[a], O=info[a]["O"] * (len(info[a]["scope"]) + 1), diff=True))
+                info.append(dict(info[a], O=info[a]["O"] * (len(info[a]["scope"]) + 1), diff=True,
+                                 L=info[a]["L"] * (len(info[a]["scope"]) + 1)))
             elif op == "evidence":
                 a = draw(st.sampled_from(nonempty))
                 obs = draw_obs(draw, dom, info[a]["scope"])
@@ -225,7 +228,8 @@ def pipeline_strategy(*, max_ops=3, max_vars=3, max_K=2, semirings=("sum-product
                              "pure": all(info[i]["pure"] for i in chosen), "O": sum(info[i]["O"] for i in chosen),
                              "diff": any(info[i]["diff"] for i in chosen),
                              "mixed": any(info[i]["mixed"] for i in chosen)
-                             or len({info[i]["scope"] for i in chosen}) > 1})
+                             or len({info[i]["scope"] for i in chosen}) > 1,
+                             "L": sum(info[i]["L"] for i in chosen)})
         return dict(cfg, bases=bases, pipe=pipe, family=family)
 
     return _s()
